@@ -61,6 +61,11 @@ def main(tier, seed, replay=None):
                                                  weights=["none", "pos", "zeros", "neg", "const"][k % 5], noise=[0.02, 0.1, 0.5][rep % 3],
                                                  quant=(8 if k % 4 else None), probs=[0.683],
                                                  ctor=("new_parallel" if k % 5 == 0 else "new"), builder_made=(k % 4 == 2 and P <= M)))
+    # weights with a tiny / huge common factor (normal matrix entries around 1e-10 / 1e7)
+    for j in range(8 if tier == "quick" else 100):
+        M, P = COMBOS[j % 4]
+        cases.append(statsrun.gen_stats_case(rng, M, P, M + P + rng.randint(3, 9), scalar="f64", weights=["tiny", "huge"][j % 2], noise=0.1,
+                                             quant=(8 if j % 3 else None), probs=[0.683]))
     # a parameter shared by two basis functions (its derivative matrix has two non-zero columns)
     for j in range(6 if tier == "quick" else 80):
         M = 2 + j % 3
